@@ -184,8 +184,15 @@ fn generate_serialize_variant_arm(
                 field_types.iter().map(|&ty| ty.clone()).collect()
             };
 
+            // The fields are bound to names of our own, so that a field called e.g. `map` or
+            // `serializer` can not shadow what the generated code itself uses.
+            let bound_names: Vec<syn::Ident> = field_names
+                .iter()
+                .map(|name| quote::format_ident!("__zlink_field_{}", name))
+                .collect();
+
             Ok(quote! {
-                Self::#variant_name { #(#field_names,)* } => {
+                Self::#variant_name { #(#field_names: #bound_names,)* } => {
                     use serde::ser::SerializeMap;
 
                     let mut map = serializer.serialize_map(Some(2))?;
@@ -212,7 +219,7 @@ fn generate_serialize_variant_arm(
                         }
 
                         ParametersSerializer {
-                            #(#field_names,)*
+                            #(#field_names: #bound_names,)*
                         }
                     })?;
 
